@@ -38,14 +38,15 @@ def replay(pid, path):
     if "history" in case:
         import checks_api
         sf = de.selfies_mod()
-        r = checks_api.replay_history(sf, case["history"], checks_api.CUSTOMS, checks_api.DPROBES, checks_api.EPROBES)
+        r = checks_api.replay_history(sf, case["history"], checks_api.CUSTOMS, checks_api.DPROBES, checks_api.EPROBES,
+                                      kind=case.get("table_kind", 0))
         sf.set_semantic_constraints("default")
         from common import load_known_findings
         if r is not None and r[2] and case["history"][r[0]]["op"] == "get_alphabet" and any(
                 f.get("signature") == "api:mutation-of-returned-robust-alphabet-visible-to-later-calls" for f in load_known_findings()):
             print("KNOWN-FINDING: property=C12 the returned robust alphabet is the cached set (see known_findings.json)")
             return 0
-        if r is not None and pid == "C11" and case["history"][r[0]]["op"] not in ("decode", "encode", "encode_strict"):
+        if r is not None and pid == "C11" and case["history"][r[0]]["op"] not in ("decode", "decode_compat", "encode", "encode_strict"):
             print("OK for C11: the deviating step is a configuration call (C12's business)")
             return 0
         if r is not None:
@@ -53,6 +54,25 @@ def replay(pid, path):
             print("  step %d: %s" % (r[0] + 1, r[1]))
             return 1
         print("OK: the history is now reproduced exactly")
+        return 0
+    if "graph" in case:
+        import match_engine as me
+        with me.Recorder() as rec:
+            try:
+                with de.time_limit(20.0):
+                    rec.call([list(a) for a in case["graph"]])
+            except BaseException as e:
+                print("VIOLATION property=%s replay=%s" % (pid, path))
+                print("  find_perfect_matching raised %s" % type(e).__name__)
+                return 1
+        _, events = me.validate_match_trace("replay", rec.records, nparts=1)
+        bad = [e for e in events if e.get("ev") == "CONTRACT"]
+        print("implementation now returns: %r" % (rec.records[0]["ev"][-1],))
+        if bad:
+            print("VIOLATION property=%s replay=%s" % (pid, path))
+            print("  " + json.dumps(bad[0])[:400])
+            return 1
+        print("OK: the case no longer violates the property")
         return 0
     print("this replay file has no single-case form; re-running the quick check instead")
     import main
